@@ -67,7 +67,11 @@ pub fn add_capture_idiom(u: &mut Choices, file: &mut File, doc: &V) {
     let types = doc_types(doc);
     let n = file.rules.len();
     let ty = if !types.is_empty() && u.chance(4, 5) { types[u.below(types.len())].clone() } else { "AWS::No::Such".to_string() };
-    let cap = format!("cap{}", n);
+    // a quarter of the captures use the name of an existing file-level query variable: whatever
+    // that means, every reference to the name must see the same value
+    let existing: Vec<String> = file.lets.iter().filter(|l| matches!(l.value, Expr::Query { .. })).map(|l| l.name.clone()).collect();
+    let collide = !existing.is_empty() && u.chance(1, 4);
+    let cap = if collide { existing[u.below(existing.len())].clone() } else { format!("cap{}", n) };
     let cnt = format!("cap{}n", n);
     let def = format!("capdef{}", n);
     // either the keys of one map (the resources of a type) or of several maps at once (the property
@@ -91,9 +95,22 @@ pub fn add_capture_idiom(u: &mut Choices, file: &mut File, doc: &V) {
         body.push(vec![Item::Clause(cl_un(Query { head: Head::Var(cap.clone()), parts: vec![] }, UnOp::Empty, true))]);
     }
     if u.chance(1, 2) {
-        body.push(vec![Item::Clause(cl_bin(Query { head: Head::Var(cap), parts: vec![] }, BinOp::In, false, Lit::V(V::List(vec![V::s("res0"), V::s("res1"), V::s("twin")]))))]);
+        body.push(vec![Item::Clause(cl_bin(Query { head: Head::Var(cap.clone()), parts: vec![] }, BinOp::In, false, Lit::V(V::List(vec![V::s("res0"), V::s("res1"), V::s("twin")]))))]);
     }
     let use_rule = Rule { name: format!("capuse{}", n), when: None, lets: vec![], body };
+    if collide {
+        // two observers of the shared name, one first and one last in the file
+        let obs = |nm: String, cap: &str| Rule {
+            name: nm,
+            when: None,
+            lets: vec![],
+            body: vec![vec![
+                Item::Clause(Clause { some: true, ..cl_bin(Query { head: Head::Var(cap.to_string()), parts: vec![] }, BinOp::In, false, Lit::V(V::List(vec![V::s("res0"), V::s("res1"), V::s("twin")]))) }),
+            ]],
+        };
+        file.rules.insert(0, obs(format!("capobs{}a", n), &cap));
+        file.rules.push(obs(format!("capobs{}b", n), &cap));
+    }
     // either order in the file
     if u.chance(1, 2) {
         file.rules.push(def_rule);
